@@ -6,7 +6,7 @@ From Coq Require Import ZArith List Bool String Ascii.
 From LV Require Import Base.Expr Base.MiniF models.M_C41.
 From LV Require models.M_C28 models.M_C29 models.M_C30 models.M_C31 models.M_C32 models.M_C39.
 From LV Require Import proofs.P_C41_base proofs.P_C41_vec proofs.P_C41_inline proofs.P_C41_rm proofs.P_C41_assoc
-                       proofs.P_C41_param proofs.P_C41_same.
+                       proofs.P_C41_param proofs.P_C41_same proofs.P_C41_alias.
 Import ListNotations.
 
 (** the decidable check evaluated on the real units is the property *)
@@ -61,6 +61,35 @@ Theorem C41_inline_all_preserves_well_scoped_partial : forall lbc ces lrs (u u' 
   well_scoped uses_stmts u'.
 Proof. exact T_inline_all_preserves_well_scoped_partial. Qed.
 Print Assumptions C41_inline_all_preserves_well_scoped_partial.
+
+(** inlining with [allowed_aliases]: an alias that the caller declares is shared, one that it does not declare is hoisted
+    under its own name; non-alias locals as before *)
+Theorem C41_inline_alias_preserves_well_scoped : forall al lbc lr ce (u u' : unit (list stmt)),
+  well_scoped uses_stmts u ->
+  well_scoped uses_stmts (callee_unit lr (u_env u) ce) ->
+  inline_class_al al lr ce u = true ->
+  T_inline_al al lbc lr ce u = Some u' ->
+  well_scoped uses_stmts u'.
+Proof. exact T_inline_al_preserves_well_scoped. Qed.
+Print Assumptions C41_inline_alias_preserves_well_scoped.
+
+Theorem C41_inline_alias_nil : forall lbc lr ce (u : unit (list stmt)), T_inline_al [] lbc lr ce u = T_inline lbc lr ce u.
+Proof. exact T_inline_al_nil. Qed.
+Print Assumptions C41_inline_alias_nil.
+
+(** if the aliases that the caller does NOT declare were not hoisted either, the inlined unit would use an undeclared name *)
+Theorem C41_inline_alias_unhoisted_refuted :
+  exists al lbc lr ce (u : unit (list stmt)) b',
+    well_scoped uses_stmts u
+    /\ inline_class_al al lr ce u = true
+    /\ M_C28.inline_body (cvars_al al (map fst (u_decls u))) lbc ce (u_body u) = Some b'
+    /\ ~ well_scoped uses_stmts
+         (mkUnit (u_args u)
+                 (u_decls u ++ filter (fun d => negb (mem (fst d) al))
+                                      (hoisted_decls_al al (map fst (u_decls u)) lr ce))%list
+                 (u_shapes u) (u_ext u) (u_inner u) b').
+Proof. exact T_inline_al_unhoisted_refuted. Qed.
+Print Assumptions C41_inline_alias_unhoisted_refuted.
 
 (** a hoisted scalar that shadows an imported array of the same name breaks the caller *)
 Theorem C41_inline_capture_refuted :
